@@ -59,7 +59,7 @@ ENCODINGS = (None, "utf-8", "latin-1", "cp1252")   # None = the parameter is lef
 COMMENTS = ("default", "#", "%", "//", None)        # "default" = the parameter is left out (documented default '#')
 
 
-QUICK = {"hif": 6000, "hif-collection": 1500, "json": 2800, "json-collection": 1100, "edgelist": 4500, "bipartite": 4500, "incidence": 4500}
+QUICK = {"hif": 5400, "hif-collection": 1300, "json": 2500, "json-collection": 1000, "edgelist": 4000, "bipartite": 4000, "incidence": 4000}
 
 
 def plan(tier):
